@@ -52,7 +52,8 @@ Inductive err :=
 | EPanic            (* getLogger().Panicf *)
 | ECompacted | EUnavailable | ESnapOutOfDate
 | EPtrNotFound      (* validateManifestPointer: offset not found / segment missing *)
-| EPtrNonRaft.      (* validateManifestPointer: non-raft record type *)
+| EPtrNonRaft       (* validateManifestPointer: non-raft record type *)
+| EOther.           (* an error class this model never produces *)
 Inductive res (A : Type) := Ok (a : A) | Err (e : err).
 Arguments Ok {A} a. Arguments Err {A} e.
 
@@ -280,7 +281,7 @@ Inductive foreign :=
 | FEntries (first : N) (es : list entry)
 | FSnap (si st : N).
 Definition other_gid : N := 2.
-Definition foreign_rec (f : foreign) : rec :=
+Definition frec_of (f : foreign) : rec :=
   match f with
   | FLsm => RLsm
   | FState h => RState other_gid h
@@ -313,7 +314,7 @@ Definition step (sync : bool) (s : state) (o : op) : state * res unit :=
   | OAppend first es => ws_append sync s first es
   | OSnap si st => ws_apply_snap sync s si st
   | OCompact idx => ws_compact s idx
-  | OForeign f => (with_wal s (wal_put (foreign_sync sync f) (st_wal s) (foreign_rec f)), Ok tt)
+  | OForeign f => (with_wal s (wal_put (foreign_sync sync f) (st_wal s) (frec_of f)), Ok tt)
   | OCrash k => crash_reopen s k
   end.
 
@@ -343,8 +344,29 @@ Definition ready_ops (rd : ready) : list op :=
   (match rd_ents rd with [] => [] | _ => [OAppend (rd_first rd) (rd_ents rd)] end).
 
 Inductive event := EvSend (msgs : list N).
-(** processReady for one Ready: handleReady (persist; an error returns before
-    anything is sent), Advance, then sendMessages *)
+
+(** handleReady: the persist calls in order; the first error returns *)
+Fixpoint persist (sync : bool) (s : state) (ops : list op) : state * bool :=
+  match ops with
+  | [] => (s, true)
+  | o :: ops' =>
+      match step sync s o with
+      | (s', Ok _) => persist sync s' ops'
+      | (s', Err _) => (s', false)
+      end
+  end.
+
+(** processReady for one Ready: handleReady (an error returns before anything
+    is sent), Advance, then sendMessages *)
 Definition process_ready (sync : bool) (s : state) (rd : ready) : state * list event :=
-  let s' := run sync s (ready_ops rd) in
-  (s', [EvSend (rd_msgs rd)]).
+  let (s', ok) := persist sync s (ready_ops rd) in
+  (s', if ok then [EvSend (rd_msgs rd)] else []).
+
+Fixpoint process_readies (sync : bool) (s : state) (rds : list ready) : state * list event :=
+  match rds with
+  | [] => (s, [])
+  | rd :: rds' =>
+      let (s1, ev1) := process_ready sync s rd in
+      let (s2, ev2) := process_readies sync s1 rds' in
+      (s2, ev1 ++ ev2)
+  end.
